@@ -398,6 +398,8 @@ func New(cfg Cfg) (*World, error) {
 	mux.Handle("/open/", probe)
 	mux.Handle("/lockmw/", lock.Middleware(ab)(probe))
 	mux.Handle("/confirmmw/", confirm.Middleware(ab)(probe))
+	// the site root behind both middlewares (ConfirmNotOK / LockNotOK point here by default)
+	mux.Handle("/", confirm.Middleware(ab)(lock.Middleware(ab)(probe)))
 
 	var h http.Handler = mux
 	if cfg.ExpireMW {
